@@ -162,11 +162,12 @@ RangeToken* RangeToken::getCaseInsensitiveToken(TokenFactory* const tokFactory) 
         RangeToken* lwrToken = tokFactory->createRange(isNRange);
 
 #if XERCES_USE_TRANSCODER_ICU && ((U_ICU_VERSION_MAJOR_NUM > 2) || (U_ICU_VERSION_MAJOR_NUM == 2 && U_ICU_VERSION_MINOR_NUM >=4))
-        UChar* rangeStr=(UChar*)fMemoryManager->allocate(40*fElemCount*sizeof(UChar));
+        // room for the brackets and the terminator even when the token holds no range
+        UChar* rangeStr=(UChar*)fMemoryManager->allocate((40*fElemCount+3)*sizeof(UChar));
         ArrayJanitor<UChar> janRange(rangeStr, fMemoryManager);
         int c=0;
         rangeStr[c++] = chOpenSquare;
-        for (unsigned int i = 0;  i < fElemCount - 1;  i += 2) {
+        for (unsigned int i = 0;  i + 1 < fElemCount;  i += 2) {
             XMLCh buffer[10];
             XMLSize_t len, j;
 
@@ -221,7 +222,7 @@ RangeToken* RangeToken::getCaseInsensitiveToken(TokenFactory* const tokFactory) 
 #else
         unsigned int exceptIndex = 0;
 
-        for (unsigned int i = 0;  i < fElemCount - 1;  i += 2) {
+        for (unsigned int i = 0;  i + 1 < fElemCount;  i += 2) {
             for (XMLInt32 ch = fRanges[i];  ch <= fRanges[i + 1];  ++ch) {
 #if XERCES_USE_TRANSCODER_ICU
                 const XMLInt32  upperCh = u_toupper(ch);
@@ -347,12 +348,14 @@ void RangeToken::addRange(const XMLInt32 start, const XMLInt32 end) {
         val2 = start;
     }
 
-    if (fRanges == 0) {
+    // a token can hold an array but no range (a class emptied by subtraction)
+    if (fRanges == 0 || fElemCount == 0) {
 
-        fRanges = (XMLInt32*) fMemoryManager->allocate
-        (
-            fMaxCount * sizeof(XMLInt32)
-        );//new XMLInt32[fMaxCount];
+        if (fRanges == 0)
+            fRanges = (XMLInt32*) fMemoryManager->allocate
+            (
+                fMaxCount * sizeof(XMLInt32)
+            );//new XMLInt32[fMaxCount];
         fRanges[0] = val1;
         fRanges[1] = val2;
         fElemCount = 2;
@@ -757,8 +760,16 @@ RangeToken* RangeToken::complementRanges(RangeToken* const tok,
     tok->sortRanges();
     tok->compactRanges();
 
-    XMLInt32 lastElem = tok->fRanges[tok->fElemCount - 1];
     RangeToken* rangeTok = tokFactory->createRange();
+
+    // the complement of no range at all is everything
+    if (tok->fRanges == 0 || tok->fElemCount == 0) {
+        rangeTok->addRange(0, UTF16_MAX);
+        rangeTok->fCompacted = true;
+        return rangeTok;
+    }
+
+    XMLInt32 lastElem = tok->fRanges[tok->fElemCount - 1];
 
     if (tok->fRanges[0] > 0) {
         rangeTok->addRange(0, tok->fRanges[0] - 1);
